@@ -421,7 +421,7 @@ func TestC12(t *testing.T) {
 	rec.Require("set:two-or-more-extending-files", 0.5)
 	rec.Require("set:two-or-more-conflicts", 0.15)
 	rapid.Check(t, func(rt *rapid.T) {
-		ms := gen.Modules(rt, gen.ModOpts{MaxConflicts: 3, MinExtFiles: 2, MaxFiles: 5, MultiDup: true, CaseNames: true})
+		ms := gen.Modules(rt, gen.ModOpts{MaxConflicts: 3, MinExtFiles: 2, MaxFiles: 5, MultiDup: true, CaseNames: true, Layout: true})
 		in := modInputOf(ms)
 		idx := make([]int, len(in.Files))
 		for i := range idx {
